@@ -105,7 +105,8 @@ static void c15_run(void) {
 			op->kind = r < 66 ? M_MERGE : r < 80 ? M_SUSPEND_RESUME : r < 88 ? M_REPLACE_HANDLER : M_PAUSE;
 			op->val = op->kind == M_PAUSE ? (uint64_t)g_range(1, 200) * USEC : D.type == 1 ? (1ull << g_n(20)) : 1 + g_n(1000);
 			// the data is an unsigned long: a quarter of the values use its upper half (sums stay far below 2^64)
-			if (op->kind != M_PAUSE && g_chance(1, 4)) op->val = D.type == 1 ? (1ull << (20 + g_n(43))) : D.type == 0 ? ((uint64_t)(1 + g_n(1000)) << (20 + g_n(30))) : ((uint64_t)(1 + g_n(1000)) << (20 + g_n(40))) | g_n(1000);
+			if (op->kind == M_MERGE && g_chance(1, 16)) op->val = 0;   // documented: no effect for ADD / OR; REPLACE stores it and the handler is not called for it
+			else if (op->kind != M_PAUSE && g_chance(1, 4)) op->val = D.type == 1 ? (1ull << (20 + g_n(43))) : D.type == 0 ? ((uint64_t)(1 + g_n(1000)) << (20 + g_n(30))) : ((uint64_t)(1 + g_n(1000)) << (20 + g_n(40))) | g_n(1000);
 			op->burst = g_range(1, 4);
 			if (op->kind == M_SUSPEND_RESUME && g_chance(1, 3)) op->burst = 0;   // a bare suspend/resume pair: may land inside one invocation of the source
 		}
@@ -154,7 +155,7 @@ static void c15_run(void) {
 	h_settle(20 * MSEC);
 	if (D.type == 0 && D.delivered_sum != D.merged_sum) h_viol("sum-mismatch", "DATA_ADD: delivered %lu, merged %lu", (unsigned long)D.delivered_sum, (unsigned long)D.merged_sum);
 	if (D.type == 1 && D.delivered_or != D.merged_or) h_viol("sum-mismatch", "DATA_OR: delivered 0x%lx, merged 0x%lx", (unsigned long)D.delivered_or, (unsigned long)D.merged_or);
-	if (D.type == 2 && hm == 0 && D.nm > 0 && !D.last_merge_overlapped && D.last_merge_ret) {
+	if (D.type == 2 && hm == 0 && D.nm > 0 && !D.last_merge_overlapped && D.last_merge_ret && D.last_merge_val != 0) {
 		// the merge with the greatest call stamp did not overlap any other merge: it must be the last value delivered
 		uint64_t t0 = sim_now();
 		while (D.last_delivered != D.last_merge_val && sim_now() - t0 < LIVENESS_NS) sim_sleep_ns(50 * MSEC);
